@@ -17,7 +17,7 @@ def known_c03_class(rec):
     idx = POINT_INDEX[rec["point"]]
     if rec["point"] in ("crit.after_edit", "exec.after_crit"):
         return "F25"
-    if rec["has_ext"] and idx >= 3:
+    if rec["has_ext"] and idx >= (1 if rec.get("ext_early") else 3):
         return "F24"
     if rec["has_wt_merge"] and idx >= 2:
         return "F11"
